@@ -64,6 +64,9 @@ def variants(name, body):
     nl = 12
     ok = hdr + f"#ifndef {g}\n# define {g}\n\n" + body + "#endif\n"
     yield "G0.accept", name, ok, None, None
+    for lab, tail in (("eol-block", f"#endif /* {g} */\n"), ("eol-line", f"#endif // {g}\n"), ("next-line-block", "#endif\n/* end */\n"),
+                      ("next-line-line", "#endif\n// end\n"), ("after-empty-line", "#endif\n\n/* end of file */\n")):
+        yield "G0.accept:comment-after-endif:" + lab, name, ok[:-len("#endif\n")] + tail, "NOPROT", None
     g1 = g[:-1] + ("X" if g[-1] != "X" else "Y")
     yield "G1.letter", name, hdr + f"#ifndef {g1}\n# define {g1}\n\n" + body + "#endif\n", "HEADER_PROT_NAME", nl + 1
     yield "G1.other-file", name, hdr + f"#ifndef OTHER_FILE_H\n# define OTHER_FILE_H\n\n" + body + "#endif\n", "HEADER_PROT_NAME", nl + 1
@@ -105,6 +108,11 @@ def judge(mid, fname, text, code, line):
             return "spurious:" + prot[0][1], f"{prot}"
         if errs:
             return "not-error-free:" + errs[0][1], f"{errs[:3]}"
+        return None
+    if code == "NOPROT":
+        # a comment after the closing #endif is not an instruction: no protection diagnostic (other rules may speak)
+        if prot:
+            return "spurious:" + prot[0][1], f"{prot}"
         return None
     if code == "NONE":
         if prot:
